@@ -495,7 +495,10 @@ class XMIResource(Resource):
                         node.attrib[feat_name] = ' '.join(result_list)
                     continue
                 default_value = feat.get_default_value()
-                if value != default_value or serialize_default:
+                # (an id is written even when it equals the default value:
+                # references to the object are written with it)
+                if value != default_value or serialize_default \
+                        or (feat.iD and value is not None):
                     node.attrib[feat_name] = etype.to_string(value)
                 continue
 
